@@ -85,13 +85,8 @@ func (a *AttrConditionPlanner) maybeCreateWhere() error {
 			return err
 		}
 		a.sqlConds = append(a.sqlConds, sqlTerm)
-
-		if !strings.HasPrefix(t.Label, "span.") &&
-			!strings.HasPrefix(t.Label, "resource.") &&
-			!strings.HasPrefix(t.Label, ".") &&
-			t.Label != "name" {
-			continue
-		}
+		// every term takes part in the row pre-filter, duration terms included: a span that satisfies only a
+		// duration term must keep its index rows, and a duration-only selector must not render an empty `()`
 		a.where = append(a.where, sqlTerm)
 	}
 	return nil
